@@ -69,7 +69,7 @@ Definition still_declared (c : c19_case) (d : decl) : bool :=
                                        | KMethod r n, KMethod r' n' => String.eqb r r' && String.eqb n n'
                                        | KType n, KType n' => String.eqb n n'
                                        | _, _ => false
-                                       end) (f_decls af)) (c_after c).
+                                       end || String.eqb (d_src d) (d_src x)) (f_decls af)) (c_after c).
 Definition mon_nothing_lost (c : c19_case) : bool :=
   forallb (fun bf =>
              match find_file (c_after c) (f_name bf) with
